@@ -9,6 +9,9 @@ use crate::engine::{self, Ctx, Part};
 pub mod c03;
 pub mod c04;
 pub mod c05;
+pub mod c07;
+pub mod c15;
+pub mod c16;
 pub mod c19;
 pub mod common;
 
@@ -25,6 +28,9 @@ fn build(ctx: &Ctx) -> Option<Check> {
         "C03" => c03::check(ctx),
         "C04" => c04::check(ctx),
         "C05" => c05::check(ctx),
+        "C07" => c07::check(ctx),
+        "C15" => c15::check(ctx),
+        "C16" => c16::check(ctx),
         "C19" => c19::check(ctx),
         _ => return None,
     })
